@@ -14,7 +14,7 @@ import (
 
 func init() {
 	register("C05", core.Spec{
-		Decides: "for every coroutine of std/ and of the liveness corpus, on the C the working tree's compiler generates: (1) liveness adequacy — every local variable that is live across some suspension point and may have been assigned before it (textbook backward may-liveness and forward may-assignment on a control-flow model of the Wuffs AST, computed by this checker independently of cgen's none/weak/strong analysis) is a field of the function's saved-state struct s_<func>; (2) every saved field is restored in the resume block and stored in the suspend block, with matching array copies, and nothing leaves the suspend block before the stores; (3) suspension-point labels inside the coroutine switch are exactly 1..n without duplicates, the resume index p_<func> is cleared on ok: and recorded on suspend:, and the switch is entered at point 0; (4) the scratch word of partially completed I/O built-ins (multi-byte reads, skip, write_u8): code resumed at a suspension-point label never overwrites the scratch word before reading it when the stretch up to the next suspension records partial progress there (S1), every label after which the scratch word is read is entered right after its initialisation (S2), and cgen emits the scratch store before the suspension point in each lowering that uses it (S3)",
+		Decides:    "for every coroutine of std/ and of the liveness corpus, on the C the working tree's compiler generates: (1) liveness adequacy — every local variable that is live across some suspension point and may have been assigned before it (textbook backward may-liveness and forward may-assignment on a control-flow model of the Wuffs AST, computed by this checker independently of cgen's none/weak/strong analysis) is a field of the function's saved-state struct s_<func>; (2) every saved field is restored in the resume block and stored in the suspend block, with matching array copies, and nothing leaves the suspend block before the stores; (3) suspension-point labels inside the coroutine switch are exactly 1..n without duplicates, the resume index p_<func> is cleared on ok: and recorded on suspend:, and the switch is entered at point 0; (4) the scratch word of partially completed I/O built-ins (multi-byte reads, skip, write_u8): code resumed at a suspension-point label never overwrites the scratch word before reading it when the stretch up to the next suspension records partial progress there (S1), every label after which the scratch word is read is entered right after its initialisation (S2), and cgen emits the scratch store before the suspension point in each lowering that uses it (S3)",
 		NotDecided: "the bit arithmetic of the scratch-word accumulation loop (that the value assembled from the partial reads is the right one), locals that hold pointers (slices, tables, I/O tokens — cgen does not save them; whether each such use is safe is a value-level argument, listed as INFO only), re-evaluation purity of nested call arguments, and the actual equality of outputs under every split",
 		Assumptions: []string{"the suspension-point model: `yield?` suspends after evaluating its value; a `?` call on an I/O token suspends after its arguments are evaluated (the built-in keeps partial state itself); any other `?` call is re-entered at the call statement and re-evaluates its arguments; `=?` is not a suspension point",
 			"local variables are re-zeroed on every entry, so a variable never assigned before a suspension point needs no save",
